@@ -56,6 +56,15 @@ def run(ctx):
                                          r.getrandbits(62), 600, 1.0, 1000.0, 1, (r.choice([1, 1, 2]) if ind in BARS else 0), p + 1,
                                          meta={"ind": ind, "p": p, "regime": g, "band": 1.0, "n": 600, "dense": True}))
                     k += 1
+    # a few streams well beyond 2^17 inputs in the quick tier too: periodic maintenance code (re-summation every 2^16 updates,
+    # counters wrapping at a power of two) only runs there
+    if not ctx.thorough:
+        for ind, p in [("SMA", 10), ("WMA", 10), ("SD", 10), ("BB", 3), ("MAD", 3), ("MIN", 10), ("MAX", 3), ("CCI", 3), ("MFI", 3)]:
+            g = r.choice([0, 1, 3])
+            cases.append(GenCase("l%d_%s_p%d_r%d" % (k, ind, p, g), ind, (p, 0, 0, 2.0 if ind == "BB" else 0.0), g,
+                                 r.getrandbits(62), 140000, 1.0, 1000.0, 3500, (r.choice([1, 1, 2]) if ind in BARS else 0), p + 1,
+                                 meta={"ind": ind, "p": p, "regime": g, "band": 1.0, "n": 140000, "long": True}))
+            k += 1
     run_gen_harness(ctx.binary_release or ctx.binary, cases, "C13")
     res = coq_check_gen(cases, "C13")
     viol = []
